@@ -157,8 +157,10 @@ class Ctx(object):
             'wall_s': round(time.time() - self.t0, 2),
             'violations': int(nviol),
         }
-        os.makedirs(EVID, exist_ok=True)
-        with open(os.path.join(EVID, self.pid + '.json'), 'w') as f:
+        # extra checks (ids not starting with C: parts of the system no listed property speaks about) keep their evidence apart
+        evid = EVID if self.pid.startswith('C') else os.path.join(os.path.dirname(EVID.rstrip('/')), 'evidence_extra')
+        os.makedirs(evid, exist_ok=True)
+        with open(os.path.join(evid, self.pid + '.json'), 'w') as f:
             json.dump(ev, f, indent=1, default=jdefault)
 
 
